@@ -1014,6 +1014,8 @@ class ModelBuilder:
         )
 
         # Set project start and end dates
+        if start_date and not duration_str:
+            raise ValueError("Project header needs a duration ('+3m') after the start date")
         if start_date:
             project["start"] = start_date
             # Calculate end date from duration if provided
